@@ -48,6 +48,8 @@ def run(prog, R, tier="quick", only_rule=None):
     from rules.props import c05
     c05.c05c(prog, R, rid="C09.i")
     c09j(prog, R)
+    # a blob file is rewritten / dropped only if no table outside the compaction points into it (shared with C08.f)
+    c08.c08f(prog, R, rid="C09.l")
 
 
 def c09h(prog, R):
@@ -343,6 +345,21 @@ def c09e(prog, R):
     else:
         ok, msg = compare_skeletons(codec_skeleton(enc["body"], "w"), codec_skeleton(dec["body"], "r"), vocab)
         r.check(ok, "FragmentationMap|encode_into <-> decode_from", msg, "", msg)
+        # every entry is written (an entry without stale *bytes* still counts stale *items*: is_dead compares the item count),
+        # and the count header is the map's length
+        ef = prog.fn("<blob_tree::gc::FragmentationMap as coding::Encode>::encode_into")
+        fam = [ef] + [g for p_, g in prog.fns.items() if p_.startswith("<blob_tree::gc::FragmentationMap as coding::Encode>::encode_into::{closure")] if ef else []
+        sel = sorted({short(c.sres) for g in fam for c in g.calls
+                      if re.search(r"::(filter\w*|skip\w*|take\w*|retain\w*|step_by|partition\w*)$", c.sres or "")})
+        cnt_ok = False
+        if ef:
+            for c in ef.calls:
+                if c.sres.endswith("WriteBytesExt::write_u32") or c.sres.endswith("WriteBytesExt::write_u64"):
+                    if any(x.endswith("HashMap::len") for x in origin_callees(ef, c.args[1], depth=4)):
+                        cnt_ok = True
+        r.check(bool(ef) and not sel and cnt_ok, "FragmentationMap::encode_into|writes every entry; count = map length",
+                "the persisted GC statistics leave entries out (%s) or the count header is not the map's length: the statistics "
+                "differ after reopen" % (sel or "count"), "", str(sel))
         # the decoded values are passed to FragmentationEntry::new in declaration order (rule A covers the call)
     w = prog.hir.get(A.TABLE_WRITER_FINISH)
     rd = prog.hir.get("table::Table::list_blob_file_references")
